@@ -106,6 +106,102 @@ def check_pair(ctx, res, case, on, off):
                 break
 
 
+
+def suite_migrate_model(ctx, res, n):
+    """Tie for Model/Sem.lean `migrateReuse` / `migrateGradient` / `peel` / `wrap` (theorems reuse_sound_*, reuse_guard, C19.reuse_taken_*):
+    the real write_font._migrate_paths_to_ufo_glyphs on a colour glyph with one PaintGlyph, with the glyph cache replaced by a scripted one
+    that offers a donor under a given affine. Exact arithmetic (Fraction) on both sides."""
+    from fractions import Fraction as F
+    from pathlib import Path
+    import dataclasses
+    from nanoemoji import config as nconfig, write_font
+    from nanoemoji.color_glyph import ColorGlyph
+    from nanoemoji.glyph_reuse import ReuseResult
+    from nanoemoji.paint import (PaintGlyph, PaintSolid, PaintLinearGradient, PaintTransform, PaintColrLayers, ColorStop, Extend, is_transform)
+    from nanoemoji.colors import Color
+    from picosvg.svg import SVG
+    from picosvg.svg_transform import Affine2D
+    from picosvg.geometric_types import Point
+    from harness.common import fr
+    from harness import cli
+
+    rng = ctx.rng
+
+    class Cache:
+        def __init__(self, T):
+            self.T = T
+            self.added = []
+        def is_known_glyph(self, name):
+            return name == "donor"
+        def try_reuse(self, path):
+            return ReuseResult("donor", self.T)
+        def add_glyph(self, name, path):
+            self.added.append(name)
+
+    def to_json(p):
+        if isinstance(p, PaintSolid):
+            return {"k": "solid", "c": "1", "a": fr(F(p.color.alpha))}
+        if isinstance(p, PaintLinearGradient):
+            return {"k": "lin", "g": [fr(F(v)) for v in (*p.p0, *p.p1, *p.p2)], "l": "0"}
+        if isinstance(p, PaintGlyph):
+            return {"k": "glyph", "o": "0" if p.glyph == "donor" else "99", "p": to_json(p.paint)}
+        if is_transform(p):
+            return {"k": "transform", "m": [fr(F(v)) for v in p.gettransform()], "p": to_json(p.paint)}
+        raise ValueError(type(p).__name__)
+
+    cfg = nconfig.FontConfig(family="V", color_format="glyf_colr_1", masters=(nconfig.MasterConfig("Regular", "Regular", "x.ufo", (), ()),))
+    ufo = write_font._ufo(cfg)
+    base_cg = ColorGlyph.create(cfg, ufo, "s.svg", 1, "g", (0xE000,), SVG.fromstring(cli.simple_svg(1)).topicosvg())
+    stops = (ColorStop(0.0, Color.fromstring("red")), ColorStop(1.0, Color.fromstring("blue")))
+    ops, real, meta = [], [], []
+    for _ in range(n):
+        r = rng.random()
+        if r < 0.25:
+            T = (1, 0, 0, 1, rng.randint(-300, 300), rng.randint(-300, 300))
+        elif r < 0.5:
+            k = rng.choice([F(1, 2), F(3, 2), F(1, 40), F(1, 100), F(2), F(1, 70000), F(1, 40000)])   # the last two: the inverse leaves Fixed 16.16
+            T = (k, 0, 0, rng.choice([k, -k, k * 2]), rng.randint(-300, 300), rng.randint(-300, 300))
+        elif r < 0.75:
+            T = (F(0), F(1), F(-1), F(0), rng.randint(-500, 500), rng.randint(-500, 500))
+        else:
+            T = (rng.choice([F(3, 4), F(5, 4)]), rng.choice([F(0), F(1, 4)]), rng.choice([F(0), F(-1, 4)]), rng.choice([F(1), F(1, 2)]), rng.randint(-200, 200), rng.randint(-200, 200))
+        kind = rng.choice(["solid", "lin", "lin", "tlin"])
+        if kind == "solid":
+            child = PaintSolid(color=Color.fromstring("red", alpha=0.5))
+            cj = {"k": "solid", "c": "1", "a": "1/2"}
+        else:
+            big = rng.random() < 0.3
+            sc = 200 if big else 1
+            pts = [rng.randint(-100, 900) * sc for _ in range(6)]
+            if (pts[2] - pts[0]) * (pts[5] - pts[1]) - (pts[3] - pts[1]) * (pts[4] - pts[0]) == 0:
+                pts[5] += 13
+            child = PaintLinearGradient(stops=stops, extend=Extend.PAD, p0=Point(F(pts[0]), F(pts[1])), p1=Point(F(pts[2]), F(pts[3])), p2=Point(F(pts[4]), F(pts[5])))
+            cj = {"k": "lin", "g": [str(v) for v in pts], "l": "0"}
+            if kind == "tlin":
+                m = (rng.choice([F(1), F(1, 2)]), F(0), rng.choice([F(0), F(1, 4)]), rng.choice([F(1), F(3, 2)]), rng.randint(-50, 50), rng.randint(-50, 50))
+                child = PaintTransform(paint=child, transform=tuple(m))
+                cj = {"k": "transform", "m": [fr(v) for v in m], "p": cj}
+        cg = base_cg._replace(painted_layers=(PaintGlyph(glyph="M0,0 L10,0 L0,10 Z", paint=child),))
+        cache = Cache(Affine2D(*[F(v) for v in T]))
+        try:
+            out = write_font._migrate_paths_to_ufo_glyphs(cg, cache)
+            root = out.painted_layers[0]
+            top = root
+            while is_transform(top):
+                top = top.paint
+            rj = None if (isinstance(top, PaintGlyph) and top.glyph != "donor") else to_json(root)
+            real.append({"paint": rj})
+        except Exception as e:  # noqa
+            real.append({"exc": type(e).__name__ + ":" + str(e)[:100]})
+        ops.append({"op": "migrate-reuse", "T": [fr(F(v)) for v in T], "child": cj})
+        meta.append((T, cj))
+    for (T, cj), r, m in zip(meta, real, ctx.driver.run(ops)):
+        res.count(key=("migrate", stable_hash([[str(v) for v in T], cj])), nontrivial=cj["k"] != "solid")
+        res.stat("migrate:" + ("exc" if "exc" in r else "fresh-glyph" if r["paint"] is None else "reused"))
+        if r != m:
+            res.add_tie_break("_migrate_paths_to_ufo_glyphs (reuse branch) vs Model migrateReuse", {"T": [str(v) for v in T], "child": cj}, m, r)
+
+
 def suite_pairs(ctx, res, n, n_tiny=0):
     cases = list(fontgen.gen_cases(ctx.rng, n, formats=FORMATS))
     # targeted family: tiny copy of a large donor with a far, non-foldable radial gradient (OverflowError fallback branch)
@@ -175,6 +271,7 @@ def run(ctx, res):
         res.count(key=("corpus", case["id"]), nontrivial=True)
         if "err" not in on and "err" not in off:
             check_pair(ctx, res, case, on, off)
+    suite_migrate_model(ctx, res, ctx.budget(200, 4000))
     suite_pairs(ctx, res, ctx.budget(36, 900), n_tiny=ctx.budget(16, 300))
 
 
